@@ -216,4 +216,27 @@ theorem chanPut_eq : Nsq.Gen.Chan.chanPut = ([
   "send c.memoryMsgChan <- m",
   "assign err := writeMessageToBackend(m, c.backend)"] : List String) := by decide
 
+/-- C02 (seeded C02-m2): `StartInFlightTimeout` stamps owner, delivery time and deadline on the message BEFORE it becomes findable in the in-flight map (`pushInFlightMessage`), then inserts it into the heap: a late answer of the previous holder can never meet a stale `clientID`. -/
+theorem startInFlight_eq : Nsq.Gen.Chan.startInFlight = ([
+  "assign msg.clientID = clientID",
+  "assign msg.deliveryTS = now",
+  "assign msg.pri = now.Add(timeout).UnixNano()",
+  "assign err := c.pushInFlightMessage(msg)",
+  "do c.addToInFlightPQ(msg)"] : List String) := by decide
+
+/-- C03 (seeded C03-m2): `Channel.doPause` stores the `paused` flag BEFORE it walks over the consumers to wake their pumps (model: `pause`/`unpause` set the flag in the same step the guard sees). -/
+theorem chanDoPause_eq : Nsq.Gen.Chan.chanDoPause = ([
+  "do atomic.StoreInt32(&c.paused, 1)",
+  "do atomic.StoreInt32(&c.paused, 0)",
+  "do c.RLock()",
+  "do client.Pause()",
+  "do client.UnPause()",
+  "do c.RUnlock()"] : List String) := by decide
+
+/-- C01: the topic pump rebuilds its channel snapshot from the channel map at start-up and on every `channelUpdateChan` event (model: `refreshPump`). -/
+theorem topicPumpLoop_eq : Nsq.Gen.Chan.topicPumpLoop = ([
+  "assign chans = append(chans, c)",
+  "assign chans = chans[:0]",
+  "assign chans = append(chans, c)"] : List String) := by decide
+
 end Nsq.Tie.Chan
